@@ -470,10 +470,10 @@ fn main() {
         Mode::Gen { seed, thorough, out } => {
             let mut o = Out::new(&out);
             let mut r = Rng::new(seed);
-            let s = if thorough { 10 } else { 3 };
+            let s = if thorough { 20 } else { 3 };
             // plans with 400 / 1000-bit entries: the extracted model (binary positives, LLL preprocessing) needs
             // 5 .. 20 s per case there, so their number is kept small and independent of `s`
-            let h = if thorough { 3 } else { 1 };
+            let h = if thorough { 5 } else { 1 };
             let small: &[u64] = &[0, 1, 1, 2, 3, 3, 4, 5, 5];
             let tiny: &[u64] = &[1, 1, 3, 5];
             let bigk: &[u64] = &[6, 7, 3];
